@@ -57,7 +57,7 @@ fn place(loc: usize, service: f64, windows: &[(f64, f64)]) -> PlaceT {
     PlaceT { loc, service, windows: windows.to_vec() }
 }
 
-/// Task templates. Jobs: 0..=9, 12, 14, 15 singles, job 10 = multi (mp, md), job 11 = multi (np, nd), job 13 = multi (qp1, qp2, qd).
+/// Task templates. Jobs: 0..=9, 12, 14, 15, 16 singles, job 10 = multi (mp, md), job 11 = multi (np, nd), job 13 = multi (qp1, qp2, qd).
 pub fn tasks() -> Vec<TaskT> {
     use DemandKind::*;
     let t = |id, demand, places: Vec<PlaceT>, job, value| TaskT { id, demand, places, job, value };
@@ -86,6 +86,8 @@ pub fn tasks() -> Vec<TaskT> {
         // at the end depot whose window starts when the tight shift ends
         t("b0", None, vec![place(0, 0., &[(0., 0.)])], 14, 0.),
         t("b36", None, vec![place(0, 0., &[(36., 50.)])], 15, 0.),
+        // two alternative places: the first one lies completely behind the end of every closed shift, the second is usable
+        t("t2", None, vec![place(1, 0., &[(2000., 3000.)]), place(2, 0., &[(0., 50.)])], 16, 0.),
     ]
 }
 
